@@ -331,4 +331,94 @@ theorem read_one_spec (t : Option Nat) (s : St) (hwf : WF s) (hc : 0 < s.chunk) 
     refine ⟨rec, c, chunk_frame hio, by rw [hio.hn, hmr], hok.1, Or.inl ?_⟩
     simp
 
+/-- The loop of `readline`. -/
+theorem readlineLoop_spec : ∀ (f : Nat) (end_ line : Bytes) (t0 : Nat) (timeout : Option Nat) (s : St),
+    bytesLeft s < f → WF s → 0 < s.chunk →
+    ∃ recs, ReadFrame s (readlineLoop f end_ line t0 timeout s).2 recs ∧ (∀ r ∈ recs, r.n = 1) ∧
+      (∀ l, (readlineLoop f end_ line t0 timeout s).1 = .ok l →
+        l = line ++ (dataOf recs).flatten
+          ∧ hitsOnlyAtEnd (fun b => end_.isSuffixOf b) line (dataOf recs) = true) ∧
+      (∀ e, (readlineLoop f end_ line t0 timeout s).1 = .error e →
+        (e = .timeout ∨ e = .hang ∨ ∃ x m, e = .death x m) ∧
+        ((e = .timeout ∨ e = .hang) → neverHits (fun b => end_.isSuffixOf b) line (dataOf recs) = true)) := by
+  intro f
+  induction f with
+  | zero => intro _ _ _ _ s hf; omega
+  | succ f ih =>
+    intro end_ line t0 timeout s hf hwf hc
+    unfold readlineLoop
+    cases hrem : remaining timeout t0 s.now with
+    | none =>
+      simp only
+      refine ⟨[], ReadFrame.refl s, by simp, by simp, ?_⟩
+      intro e he
+      simp only [Except.error.injEq] at he
+      subst he
+      exact ⟨Or.inl rfl, fun _ => rfl⟩
+    | some rem =>
+      simp only
+      rcases read_one_spec rem s hwf hc with ⟨rec, c, hfr, hn, hdata, hres⟩ | ⟨recs, e, hfr, hn, hdata, hres, hkind⟩
+      · have hrn : ∀ r ∈ [rec], r.n = 1 := by
+          intro r hr; simp only [List.mem_singleton] at hr; subst hr; exact hn
+        generalize hs2 : (Chan.read (some 1) rem s).2 = s2 at hfr
+        rcases hres with hok | ⟨x, m, herr⟩
+        · -- one byte was read
+          have hsplit : Chan.read (some 1) rem s = (.ok [c], s2) := by
+            rw [← hs2, ← hok]
+          rw [hsplit]
+          simp only
+          have hbytes := hfr.bytes
+          rw [dataOf_cons_some _ _ _ hdata] at hbytes
+          simp only [dataOf_nil, List.flatten_cons, List.flatten_nil, List.append_nil, List.length_cons,
+            List.length_nil] at hbytes
+          split
+          · rename_i hend
+            refine ⟨[rec], hfr, hrn, ?_, by simp⟩
+            intro l hl
+            simp only [Except.ok.injEq] at hl
+            subst hl
+            refine ⟨by rw [dataOf_cons_some _ _ _ hdata]; simp, ?_⟩
+            rw [dataOf_cons_some _ _ _ hdata, dataOf_nil, hitsOnlyAtEnd_cons]
+            simp [hend]
+          · rename_i hend
+            obtain ⟨recs, hf2, hn2, hok2, herr2⟩ := ih end_ (line ++ [c]) t0 timeout s2 (by omega) (hfr.wf hwf)
+              (by rw [hfr.chunk]; exact hc)
+            refine ⟨rec :: recs, hfr.trans hf2, ?_, ?_, ?_⟩
+            · intro r hr
+              rcases List.mem_cons.mp hr with rfl | hr
+              · exact hn
+              · exact hn2 r hr
+            · intro l hl
+              obtain ⟨h1, h2⟩ := hok2 l hl
+              refine ⟨by rw [h1, dataOf_cons_some _ _ _ hdata]; simp, ?_⟩
+              rw [dataOf_cons_some _ _ _ hdata, hitsOnlyAtEnd_cons]
+              have hne : dataOf recs ≠ [] := by intro hc'; rw [hc'] at h2; simp at h2
+              simp [hne, hend, h2]
+            · intro e he
+              refine ⟨(herr2 e he).1, fun hto => ?_⟩
+              rw [dataOf_cons_some _ _ _ hdata, neverHits_cons]
+              simp [hend, (herr2 e he).2 hto]
+        · have hsplit : Chan.read (some 1) rem s = (.error (.death x m), s2) := by
+            rw [← hs2, ← herr]
+          rw [hsplit]
+          simp only
+          refine ⟨[rec], hfr, hrn, by simp, ?_⟩
+          intro e he
+          simp only [Except.error.injEq] at he
+          subst he
+          exact ⟨Or.inr (Or.inr ⟨x, m, rfl⟩), fun h => by rcases h with h | h <;> simp at h⟩
+      · generalize hs2 : (Chan.read (some 1) rem s).2 = s2 at hfr
+        have hsplit : Chan.read (some 1) rem s = (.error e, s2) := by
+          rw [← hs2, ← hres]
+        rw [hsplit]
+        simp only
+        refine ⟨recs, hfr, hn, by simp, ?_⟩
+        intro e' he
+        simp only [Except.error.injEq] at he
+        subst he
+        refine ⟨?_, fun _ => by rw [hdata]; rfl⟩
+        rcases hkind with h | h
+        · exact Or.inl h
+        · exact Or.inr (Or.inl h)
+
 end C03
